@@ -11,13 +11,14 @@ import zlib
 import aiosess
 import twsess
 import legacy_drv as L
+import blksess
 import judge
 from common import fp, jbytes, unjbytes, coq_bytes
 
 import hpfeeds.protocol as P
 
 PIDS = ('C11', 'C12', 'C13')
-IMPORTS = 'Bytes Wire Run Stores AioSession TwSession LegacyClient ClientRun'
+IMPORTS = 'Bytes Wire Run Stores AioSession TwSession LegacyClient BlkSession ClientRun'
 
 
 def _ad(s):
@@ -162,6 +163,11 @@ def clean_prefix(frames, error_ends=True):
     return out
 
 
+def is_subsequence(a, b):
+    it = iter(b)
+    return all(any(x == y for y in it) for x in a)
+
+
 def pub_of(body):
     n = body[0]
     i = body[1:1 + n]
@@ -267,9 +273,17 @@ def session_oracles(d, ident, secret, kind):
         queued = [(i, c, bytes(p)) for i, c, p in o['queued_items']]
         exp = [(i, c, p) for i, c, p in expected]
         have = sorted(got) + queued
-        if len(have) > len(exp) and not dirty:
+        if dirty:
+            rest = list(have)
+            for m in exp:
+                if m in rest:
+                    rest.remove(m)
+                else:
+                    flag('C12', k, 'message %r arrived on a well-formed stream but is neither handed over nor queued' % (m,))
+                    break
+        elif len(have) > len(exp):
             flag('C12', k, 'the application holds %d messages but the broker sent %d' % (len(have), len(exp)))
-        elif not dirty or len(have) <= len(exp):
+        else:
             head = exp[:len(got)]
             tail = exp[len(got):len(got) + len(queued)]
             if sorted(head) != sorted(got):
@@ -446,3 +460,99 @@ def expected_callbacks(rxbytes):
         elif op == P.OP_ERROR:
             out.append(('err', body.decode('utf-8')))
     return out, clean
+
+
+# ---- blocking thread session ------------------------------------------------------------------------------------------
+F6_SIG = 'C11: blocking session: an application frame is sent before OP_AUTH'
+F6_TEXT = ('blocking thread session: subscribe()/unsubscribe()/publish() called after the TCP connect and before the OP_INFO '
+           '(when_connected is set at connect) is sent before OP_AUTH')
+
+
+def blk_oracles(d, ident, secret):
+    """-> dict pid -> (signature, text).  C11: handshake clause only (this session never resubscribes, by design of the property)"""
+    import struct
+    found = {'C11': [], 'C12': []}
+    me = fp(ident.encode())
+    fed = {}
+    early = {}                    # conn -> application frames written before this connection's OP_INFO was complete
+    expected = []
+    seen_clean = {}
+    dirty = set()
+    for k, rec in enumerate(d.trace):
+        ev, o = rec['ev'], rec['obs']
+        cur = o['cur']
+
+        def flag(pid, sig, msg):
+            found[pid].append((sig, 'blocking session event %d %r: %s' % (k, ev[:1], msg)))
+        if ev[0] == 'data' and rec['delivered']:
+            c = cur if cur is not None else len(o['conns']) - 1
+            fed.setdefault(c, []).append(unjbytes(ev[1]))
+            allf = judge.arrived_frames(fed[c])
+            cl = clean_prefix(allf)
+            if len(cl) < len(allf):
+                dirty.add(c)
+            if c not in dirty:
+                done = sum(len(b) + 5 for _, b in allf)
+                rest = b''.join(fed[c])[done:]
+                if len(rest) >= 5:
+                    ml, op = struct.unpack('!iB', rest[:5])
+                    if op > 5 or ml > P.SIZES.get(op, P.MAXBUF) or ml < 5:
+                        dirty.add(c)
+            for op, body in cl[seen_clean.get(c, 0):]:
+                if op == P.OP_PUBLISH:
+                    expected.append(pub_of(body))
+            seen_clean[c] = len(cl)
+        elif ev[0] in ('sub', 'unsub', 'pub') and cur is not None and not rec['raised']:
+            allf = judge.arrived_frames(fed.get(cur, []))
+            if not any(op == P.OP_INFO and clean_prefix([(op, b)]) for op, b in allf):
+                early[cur] = early.get(cur, 0) + 1
+        # ---- C11 (handshake clause) ----
+        for c, co in enumerate(o['conns']):
+            fr = co['frames']
+            allf = judge.arrived_frames(fed.get(c, []))
+            infos = [b for op, b in allf if op == P.OP_INFO and clean_prefix([(op, b)])]
+            ne = early.get(c, 0)
+            head, tail = fr[:ne], fr[ne:]
+            if ne and fr:
+                flag('C11', F6_SIG, 'connection %d: %r was sent before the OP_AUTH (written before the OP_INFO had arrived)' % (c, fr[0]))
+            if any(f[0] not in 'SUP' for f in head):
+                flag('C11', 'C11: blocking session: handshake frame among early application frames',
+                     'connection %d: %r' % (c, head))
+            if tail and not infos:
+                flag('C11', 'C11: blocking session: frame before any OP_INFO', 'connection %d: %r was put on the wire although no OP_INFO has arrived' % (c, tail[0]))
+            if infos:
+                n = infos[0][0]
+                nonce = bytes(infos[0][1 + n:])
+                want_auth = 'A%s/%s' % (me, fp(hashlib.sha1(nonce + secret.encode()).digest()))
+                if tail and tail[0] != want_auth:
+                    flag('C11', 'C11: blocking session: first protocol frame is not the OP_AUTH for this nonce',
+                         'connection %d: %r instead of %r' % (c, tail[0], want_auth))
+                if not tail and allf and allf[0][0] == P.OP_INFO and not co['closed'] and c == cur:
+                    flag('C11', 'C11: blocking session: no OP_AUTH after OP_INFO', 'connection %d: OP_INFO has arrived but no OP_AUTH was sent' % c)
+        # ---- C12 ----
+        have = list(o['got']) + list(o['queued'])
+        exp = list(expected)
+        if not dirty:
+            if have != exp:
+                flag('C12', 'C12: blocking session: read()+queue differ from what the broker sent',
+                     'read() returned + queue holds %r, the broker sent %r' % (have[:3], exp[:3]))
+        elif not is_subsequence(exp, have):
+            # some connection carried frames no broker sends: what was decoded from it is not judged, but everything
+            # that arrived on well-formed streams must still be there, in order
+            flag('C12', 'C12: blocking session: read()+queue differ from what the broker sent',
+                 'read() returned + queue holds %r, which does not contain in order what the broker sent on clean connections %r' % (have[:3], exp[:3]))
+    out = {}
+    for pid, lst in found.items():
+        if not lst:
+            continue
+        other = [x for x in lst if x[0] != F6_SIG]
+        out[pid] = other[0] if other else lst[0]
+    return out
+
+
+def gen_blk(rng):
+    return blksess.gen_events(rng)
+
+
+def expr_blk(events, ident, secret):
+    return blksess.expr(events, ident, secret)
